@@ -13,6 +13,8 @@ package main
 import (
 	"fmt"
 	"go/types"
+
+	"golang.org/x/tools/go/ssa"
 )
 
 func (c *FnCtx) sortSlice(st *State, args []Val) bool {
@@ -24,8 +26,58 @@ func (c *FnCtx) sortSlice(st *State, args []Val) bool {
 		return false
 	}
 	c.permuteSlice(st, v)
+	if len(args) >= 2 && c.sortSliceOrder(st, v, args[1]) {
+		return true
+	}
 	c.note("sort.Slice: assumed to permute the slice in place; the resulting order (less closure) is not modelled")
 	return true
+}
+
+// sortSliceOrder: when the less argument of sort.Slice is a closure created in this function and
+// under contract with a clause labelled `order` of the form `result <==> E(i, j)` (E over the
+// closure's parameters and captured variables), the sorted slice additionally satisfies, for all
+// positions i < j, !E(j, i): no later element is less than an earlier one. The closure is verified
+// against that contract like any other function.
+func (c *FnCtx) sortSliceOrder(st *State, sv Val, less Val) bool {
+	mc, ok := c.closures[less.S]
+	if !ok {
+		return false
+	}
+	fn, ok := mc.Fn.(*ssa.Function)
+	if !ok || len(fn.Params) != 2 {
+		return false
+	}
+	key := contractKeyForFunc(fn)
+	lfc := c.eng.cs.Funcs[key]
+	if lfc == nil {
+		return false
+	}
+	done := false
+	for _, e := range lfc.Ensures {
+		if e.Label != "order" || e.Expr == nil || e.Expr.Op != "bin" || e.Expr.Name != "<==>" {
+			continue
+		}
+		c.usedContracts[key] = lfc
+		iName, jName := fn.Params[0].Name(), fn.Params[1].Name()
+		if len(lfc.Names) == 2 {
+			iName, jName = lfc.Names[0], lfc.Names[1]
+		}
+		c.nfresh++
+		qi := sym(fmt.Sprintf("q.si!%d", c.nfresh))
+		qj := sym(fmt.Sprintf("q.sj!%d", c.nfresh))
+		env := &SpecEnv{c: c, st: st, heap: st.heap, vars: map[string]Val{}, pkg: fn.Pkg.Pkg, foreign: true, fvs: c.closureBindings(st, mc)}
+		env.vars[iName] = mathInt(qj)
+		env.vars[jName] = mathInt(qi)
+		body, err := c.evalBool(env, e.Expr.Args[1])
+		if err != nil {
+			c.errs = append(c.errs, "sort.Slice: cannot evaluate the order clause of "+key+": "+err.Error())
+			break
+		}
+		st.assume(fmt.Sprintf("(forall ((%s Int) (%s Int)) (=> (and (<= 0 %s) (< %s %s) (< %s %s)) (not %s)))", qi, qj, qi, qi, qj, qj, sv.Len(), body))
+		c.note("sort.Slice: permutes the slice in place, ordered by the less closure " + shortCallee(key) + " (contract clause `order`): no later element is less than an earlier one")
+		done = true
+	}
+	return done
 }
 
 func (c *FnCtx) permuteSlice(st *State, v Val) {
